@@ -14,6 +14,8 @@ func init() {
 			r("P1", RuleP1),
 			r("P2", RuleP2),
 			r("T1", RuleT1),
+			r("L1", RuleL1),
+			r("SB1", RuleSB1),
 		},
 		Explanation: "Totality is split into the mechanisms the code relies on, each decided on every path/site: scanner pushdown reachability (no empty pops, no inverted lexeme spans, no index underflow, progress), nil/unset typestates of the parser and directive tree, guarded recursion and worklists, discharged explicit panics, recover barriers around the trusted library.",
 		Trusted:     trustedCommon,
